@@ -24,7 +24,7 @@ P
 for sd in C07-1 C07-2 C07-3 C07-4 C07-5 C07-6 C09-1 C09-2 C09-3 C09-4 C09-5 C09-6 C18-1 C18-2 C18-3 C18-4 C18-5 C18-6 C19-1 C19-2 C19-3 C19-4 C19-5 C19-6; do
   git -C $SEEDREPO apply /verif/seeded/$sd/patch.diff && run "seed $sd" ${sd%%-*} M
 done
-# --- translator (paths2coq) ---
+# --- translator (partnames2coq) ---
 edit writer.py "return max(pids) + 1" "return max(pids)";                 run "T1 find_max_part without +1" C19 M
 edit writer.py "% (i + i_offset)" "% i";                                  run "T3 part name without the offset" C19 M
 edit writer.py "return max(pids) + 1" "return 1 + max(pids)";             run "T2 1 + max(pids)" C19 N
